@@ -474,6 +474,7 @@ impl<'a> Program<'a> {
             }
         }
         let mut depth_max = 0usize;
+        let mut super_limit = false;
         walk_modules(self.root, &mut Vec::new(), &mut |m, ns| {
             depth_max = depth_max.max(ns.len());
             let mut seen_f = Vec::new();
@@ -514,8 +515,8 @@ impl<'a> Program<'a> {
                         let ups = segs.iter().take_while(|s| **s == "super").count();
                         if ups > ns.len() {
                             // more `super.` than the module is deep: an error *value* once the
-                            // import is used; unused it may pass
-                            unspecified.get_or_insert_with(|| format!("import {imp} walks above the root"));
+                            // import is consulted
+                            super_limit = true;
                         }
                         if segs.iter().any(|s| s.is_empty()) || segs.iter().skip(ups).any(|s| *s == "super") {
                             unspecified.get_or_insert_with(|| format!("odd import {imp}"));
@@ -572,13 +573,18 @@ impl<'a> Program<'a> {
                 must.push("EmptyVariable".into());
             }
         }
+        // imports that are merely odd are only required not to resolve to anything and never to
+        // crash: nothing more is demanded of a module tree that contains one
+        if let Some(u) = unspecified {
+            return CompileVerdict::Unspecified(u);
+        }
         if !must.is_empty() {
+            if super_limit {
+                must.push("SuperLimitReached".into());
+            }
             must.sort();
             must.dedup();
             return CompileVerdict::MustFail(must);
-        }
-        if let Some(u) = unspecified {
-            return CompileVerdict::Unspecified(u);
         }
         CompileVerdict::Ok
     }
